@@ -35,7 +35,7 @@ impl Adapter for RateLimiterAd {
         let p = *rng.pick(&[3u64, 4, 5, 8]);
         // 1000000 stands for Duration::MAX: callers wait as long as it takes
         let t = if rng.pct(5) { 1000000 } else { *rng.pick(&[0u64, 1, 2, p - 1, p, p + 1, 2 * p, 2 * p + 1, 4 * p]) };
-        json!({"hm": rng.below(4), "win": win, "L": l, "P": p, "T": t, "slow": if rng.pct(35) { 1 } else { 0 }, "base": if rng.pct(40) { 1 + rng.below(3) } else { 0 }, "ord": rng.below(3), "sib": rng.below(2),
+        json!({"hm": rng.below(4), "win": win, "L": l, "P": p, "T": t, "slow": if rng.pct(35) { 1 } else { 0 }, "subp": if win != "counter" && rng.pct(35) { 1 } else { 0 }, "base": if rng.pct(40) { 1 + rng.below(3) } else { 0 }, "ord": rng.below(3), "sib": rng.below(2),
                "lazy": if self.variant == "lazy" { 1 } else { 0 }})
     }
     fn build(&mut self, cfg: &Value, sim: &mut Sim) {
@@ -56,7 +56,10 @@ impl Adapter for RateLimiterAd {
             3 => RateLimiterLayer::burst(5, 3),
             _ => RateLimiterLayer::builder(),
         };
-        let (l, p, t) = (cfg["L"].as_u64().unwrap() as usize, Duration::from_millis(cfg["P"].as_u64().unwrap()), if cfg["T"].as_u64().unwrap() >= 1000000 { Duration::MAX } else { Duration::from_millis(cfg["T"].as_u64().unwrap()) });
+        // cfg.subp = 1 (fixed window, sliding log): the period is given 600 us short of P ms; at millisecond instants the
+        // windows are the same as with P ms - unless somebody truncates the period to whole milliseconds
+        let pd = if cfg["subp"].as_u64().unwrap_or(0) == 1 { Duration::from_micros(cfg["P"].as_u64().unwrap() * 1000 - 600) } else { Duration::from_millis(cfg["P"].as_u64().unwrap()) };
+        let (l, p, t) = (cfg["L"].as_u64().unwrap() as usize, pd, if cfg["T"].as_u64().unwrap() >= 1000000 { Duration::MAX } else { Duration::from_millis(cfg["T"].as_u64().unwrap()) });
         let layer = match cfg["ord"].as_u64().unwrap_or(0) {
             1 => b.window_type(wt).timeout_duration(t).refresh_period(p).limit_for_period(l).build(),
             2 => b.timeout_duration(t).limit_for_period(l).window_type(wt).refresh_period(p).name("rl").build(),
